@@ -1,5 +1,7 @@
 """C08 - Block2 download: structural necessary conditions."""
+import os
 from harness import *
+from absdom import holds
 from absdom import Aff
 import blockutil
 import interp
@@ -14,8 +16,14 @@ EXPLANATION = ("the function that cuts the cached body into chunks (found as the
                "is filled exactly on paths whose served block has more = true and released exactly on paths with "
                "more = false; a path that served from the cache never returns Ok(false) from the request side; the "
                "copy loop writes every option of the cached reply unconditionally and Block2 is set by replacement; "
-               "with block number 0 the 4.00 exit is unreachable (first block of any body, including the empty one)")
-NOT_DECIDED = "Not decided: byte-for-byte reassembly, exact block sizes, the more flag's value for every body length."
+               "with block number 0 the 4.00 exit is unreachable (first block of any body, including the empty one).  C08.6: the "
+               "serve function is run with the exact contract of [T]::chunks / skip / next (k-th item = src[k*size .. min((k+1)*size, "
+               "len)]); on every serving path the reply payload is a copy of cached.payload[num*size .. +min(size, len - num*size)] "
+               "with size = the requested block's size(), and the Block2 value written keeps num and SZX and has more exactly when "
+               "(num+1)*size < len")
+NOT_DECIDED = ("Not decided: the client-side reassembly over a whole transfer as an equality of byte strings (each served block is "
+               "decided: which bytes of the cached body it carries and what its more flag says); ETag stability across blocks "
+               "beyond the option copy loop.")
 ASSUMPTIONS = ["BlockValue.size_exponent <= 7 for block values in the handler state"]
 
 
@@ -163,6 +171,7 @@ def check(env, rep, tier):
                    "without set_option(number, values.clone()) on the live reply (items iterated: %d, copies: %d, skipping paths: %d)" % (n_items[0], n_sets[0], len(bad)),
                    {"file": clone["span"]["f"], "line": clone["span"]["l"], "fn": clone["path"]},
                    sample={"rule": "C08.4", "iterated": n_items[0], "copied": n_sets[0], "skipping_paths": len(bad)})
+        check_served_chunk(prog, rep, serve)
         # ------------------------------------------------ C08.5 first block never 4.00
         def setup(tr_, I, st):
             pass
@@ -193,3 +202,145 @@ def check(env, rep, tier):
                    "a request for block 0 can be answered 4.00 Bad Request (an empty body yields no chunk): the first block of a transfer must always be served",
                    {"file": serve["span"]["f"], "line": bad[0]["line"] if bad else serve["span"]["l"], "fn": serve["path"]},
                    sample={"rule": "C08.5", "bad_request_reachable_with_num_0": bool(bad)})
+
+
+def check_served_chunk(prog, rep, serve):
+    """C08.6: what a served block contains.  The serve function is run for an arbitrary block value and cached
+    reply with the exact model of [T]::chunks (k-th item = src[k*size .. min((k+1)*size, len)]); on every path that
+    serves: the reply payload is a copy of cached.payload[num*size .. +l] with l = min(size, len - num*size), size being
+    the requested block's size(), and the Block2 value written keeps num and SZX and has more <=> (num+1)*size < len"""
+    from rules.c13 import bv_invariant
+    I = new_interp(prog)
+    I.precise_chunks = True
+    I.type_invariants[BV] = bv_invariant
+    I.no_join_bodies.add(serve["id"])
+    gargs = (("param", "Endpoint"),)
+    st = State()
+    subst = prog.body_subst(serve, gargs)
+    args = [I.mat(st, prog.ty(serve["locals"][i + 1]["ty"], subst), "a%d" % i) for i in range(serve["arg_count"])]
+    tys = [prog.types[serve["locals"][i + 1]["ty"]]["s"] for i in range(serve["arg_count"])]
+    bvi = [i for i, t in enumerate(tys) if t == BV]
+    pki = [i for i, t in enumerate(tys) if t == "&packet::Packet"]
+    rqi = [i for i, t in enumerate(tys) if "request::CoapRequest" in t]
+    site = {"file": serve["span"]["f"], "line": serve["span"]["l"], "fn": serve["path"]}
+    if len(bvi) != 1 or len(pki) != 1 or len(rqi) != 1:
+        rep.missing("C08.6", "signature (request, block value, &Packet) of %s" % serve["path"])
+        return
+    R = {n: blockutil.idx(prog, "request::CoapRequest", n) for n in ("message", "response")}
+    P = {n: blockutil.idx(prog, "packet::Packet", n) for n in ("payload",)}
+    ni, mi, zi = (blockutil.idx(prog, BV, n) for n in ("num", "more", "size_exponent"))
+    bv = args[bvi[0]]
+    if isinstance(bv, StructV) and isinstance(bv.fields[ni], TopV):
+        fs = list(bv.fields)
+        fs[ni] = I.mat(st, fs[ni].ty, "bv.num")
+        bv = StructV(fs)
+        args[bvi[0]] = bv
+    cached = args[pki[0]]
+    cty = prog.ty(serve["locals"][pki[0] + 1]["ty"], subst)[2]
+    I.ensure(st, cached.place, cty, "cached")
+    cpl = I.ensure(st, cached.place.extend(("f", P["payload"])), ("adt", "alloc::vec::Vec", (("int", 8, False),), "struct"), "cached.payload")
+    req = args[rqi[0]]
+    rty = prog.ty(serve["locals"][rqi[0] + 1]["ty"], subst)[2]
+    I.ensure(st, req.place, rty, "request")
+    rv0 = I.ensure(st, req.place.extend(("f", R["response"])), I.field_types(rty)[R["response"]], "request.response")
+    if not (isinstance(rv0, EnumV) and isinstance(cpl, VecV) and isinstance(bv, StructV)):
+        rep.missing("C08.6", "tracked arguments of %s" % serve["path"])
+        return
+    crt = I.field_types(rty)[R["response"]][2][0]
+    I.write(st, req.place.extend(("f", R["response"])), EnumV(rv0.path, {1: StructV([I.mat(st, crt, "response")])}, rv0.ty))
+    rmsg = req.place.extend(("f", R["response"]), ("v", 1), ("f", 0), ("f", 0))
+    I.ensure(st, rmsg, I.field_types(crt)[0], "response.message")
+    written = []
+
+    def vhook(I_, ctx, s, v):
+        if isinstance(v, StructV) and len(v.fields) == 3 and isinstance(v.fields[mi], IntV) and v.fields[mi].ty == (1, False) \
+                and ctx.body["id"] == serve["id"]:
+            s.ghost["bv_written"] = v
+    I.value_hooks.append(vhook)
+
+    def chook(I_, s, call, cbody):
+        if call.path in ("packet::Packet::set_options_as", "packet::Packet::set_option", "packet::Packet::add_option_as") and call.ctx.depth == 0:
+            s.ghost[("inj", "block2-set")] = True
+    I.call_hooks.append(chook)
+    I, res = run(prog, serve, args=args, st=st, I=I, gargs=gargs)
+    L = cpl.len
+    num = bv.fields[ni]
+    n, bad = 0, []
+    for s, rv in res:
+        if not (isinstance(rv, EnumV) and list(rv.variants) == [0]):
+            continue
+        # a product with a factor known to be zero is zero (the guard `num == 0` is learnt after the product was formed)
+        for sym in list(s.bounds):
+            inf = I.syminfo.get(sym)
+            if inf and inf[0] == "mul" and (s.entails_eq(inf[1], Aff.const(0)) or s.entails_eq(inf[2], Aff.const(0))):
+                s.add_eq(Aff.sym(sym), Aff.const(0))
+        if s.dead:
+            continue
+        n += 1
+        pl = I.read(s, rmsg.extend(("f", P["payload"])))
+        if not (isinstance(pl, VecV) and isinstance(pl.tag, tuple) and pl.tag[0] == "slice"):
+            bad.append("the reply payload is not (shown to be) a copy of one chunk of the cached payload")
+            continue
+        _, base, off, ln = pl.tag
+        if isinstance(base, tuple) and base[0] == "arr" and ln.is_const() and ln.c == 0:
+            # the empty final block of an empty body: only for block 0 of an exhausted (empty) cached payload, more = 0
+            w = s.ghost.get("bv_written")
+            mv = w.fields[mi] if isinstance(w, StructV) else None
+            if not (s.entails_eq(num.aff, Aff.const(0)) and s.entails(-L) and isinstance(mv, IntV) and mv.aff.is_const() and mv.aff.c == 0):
+                if os.environ.get("VERIF_DEBUG_C08"):
+                    print("EMPTY", s.entails_eq(num.aff, Aff.const(0)), s.entails(-L), mv, s.range(L), [f for f in s.facts][:8], {k: v for k, v in s.bounds.items() if "mul" in k}, num)
+                bad.append("an empty block is served although the cached body is not shown empty / block 0 / more = 0")
+            continue
+        okb = isinstance(base, tuple) and base[0] == "vec" and base[1] == cached.place.extend(("f", P["payload"]))
+        if not okb:
+            if os.environ.get("VERIF_DEBUG_C08"):
+                print("base", base, "want", cached.place.extend(("f", P["payload"])))
+            bad.append("the served chunk is not cut from the cached reply's payload")
+            continue
+        # offset = num * size, size = the requested block's size()
+        size = None
+        sg = off.single()
+        if off.is_const() and off.c == 0 and s.entails_eq(num.aff, Aff.const(0)):
+            size = "any"
+        elif sg and sg[1] == 1 and sg[2] == 0:
+            inf = I.syminfo.get(sg[0])
+            if inf and inf[0] == "mul":
+                fa = [f for f in (inf[1], inf[2]) if f != num.aff]
+                if len(fa) == 1 and (inf[1] == num.aff or inf[2] == num.aff):
+                    size = fa[0]
+        if size is None:
+            bad.append("the chunk offset %s is not block number x block size" % norm(off))
+            continue
+        if size != "any":
+            ssym = size.single()
+            sinf = I.syminfo.get(ssym[0]) if ssym else None
+            zs = bv.fields[zi]
+            if not (sinf and sinf[0] in ("shl",) or (ssym and str(ssym[0]).startswith("shl"))):
+                bad.append("the chunk size is not the requested block's size()")
+                continue
+            # length: full chunk or the tail
+            if not (s.entails_eq(ln, size) and s.entails(L - off - size) or s.entails_eq(ln, L - off) and s.entails(off + size - L - 1)):
+                bad.append("the chunk length is not min(size, len - offset)")
+                continue
+            w = s.ghost.get("bv_written")
+            if not (isinstance(w, StructV) and s.ghost.get(("inj", "block2-set"))):
+                bad.append("no Block2 value is written on a serving path")
+                continue
+            more = w.fields[mi]
+            mv = None
+            if isinstance(more, IntV):
+                if more.aff.is_const():
+                    mv = more.aff.c
+                elif more.cond is not None:
+                    mv = 1 if holds(s, more.cond, True) else 0 if holds(s, more.cond, False) else None
+            if mv is None:
+                bad.append("the more flag written is not determined by the path")
+                continue
+            if mv == 1 and not s.entails(L - off - size - 1) or mv == 0 and not s.entails(off + size - L):
+                bad.append("more = %d is written although (num+1) x size %s len is not established" % (mv, "<" if mv else ">="))
+                continue
+            if not (isinstance(w.fields[ni], IntV) and w.fields[ni].aff == num.aff and w.fields[zi] == bv.fields[zi]):
+                bad.append("the Block2 value written does not keep the requested num / SZX")
+    rep.ob("C08.6", "served-chunk", not bad and n >= 2,
+           "%s: %s (serving paths: %d)" % (serve["path"], "; ".join(sorted(set(bad))[:2]) or "too few serving paths", n), site,
+           sample={"rule": "C08.6", "serving_paths": n})
